@@ -323,8 +323,9 @@ class C20(Property):
             if p not in rep:
                 viol("file-missing-from-report", "%s has no row" % n, "row")
                 continue
-            exp = self.verdicts(text_of(bytes.fromhex(case["files"][n])),
-                                inject)
+            # "that dialect's load of the file": the text the library
+            # itself makes of the file (C09 judges that step, not C20)
+            exp = self.verdicts(pvl.get_text_from(p), inject)
             if out is not None:
                 out.evals += 10
             for row in ROWS:
